@@ -682,6 +682,9 @@ func useOfGlobal(u *Universe, v ssa.Value, ins ssa.Instruction, f *ssa.Function,
 			return
 		}
 		if bi, ok := c.Value.(*ssa.Builtin); ok {
+			if inInit {
+				return // filled during package initialisation, before any instance exists
+			}
 			if bi.Name() == "append" && len(c.Args) > 0 && c.Args[0] == v {
 				*bad = append(*bad, "append onto it at "+pos+" may write into its backing array")
 			} else if bi.Name() == "copy" && len(c.Args) > 0 && c.Args[0] == v {
